@@ -50,10 +50,14 @@ static const FieldD SILKDF[] = { SILKDEC_FIELDS(XDS) };
 static const FieldD CELTF[] = { CELTENC_CFG_FIELDS(XC) };
 #define NF(a) ((int)(sizeof(a) / sizeof((a)[0])))
 
-/* the members must tile [0, total): each starts at the previous end rounded up to its alignment */
-static int tiles(const FieldD *f, int n, int total, int structAlign)
+/* the members must tile [0, total): taken in offset order (declaration order may differ from the list's),
+   each starts at the previous end rounded up to its alignment */
+static int tiles(const FieldD *f0, int n, int total, int structAlign)
 {
-   int i, end = 0;
+   FieldD f[80]; int i, j, end = 0;
+   if (n > 80) return 0;
+   for (i = 0; i < n; i++) f[i] = f0[i];
+   for (i = 1; i < n; i++) { FieldD t = f[i]; for (j = i; j > 0 && f[j - 1].off > t.off; j--) f[j] = f[j - 1]; f[j] = t; }
    for (i = 0; i < n; i++) {
       int want = (end + f[i].al - 1) / f[i].al * f[i].al;
       if (f[i].off != want) return 0;
